@@ -774,6 +774,8 @@ fn process_deletions(
 
         entry.record.retire_extent();
         if entry.record.extent_has_readers() {
+            #[cfg(feoxdb_verif)]
+            crate::verif::proto::event(crate::verif::proto::Kind::RetireBlocked, sector, 0, &entry.record.key, 0);
             retries.push(entry);
             continue;
         }
@@ -805,6 +807,14 @@ fn process_deletions(
     let mut releasable = Vec::with_capacity(release_operations.len());
     for entry in release_operations {
         if entry.record.extent_has_readers() {
+            #[cfg(feoxdb_verif)]
+            crate::verif::proto::event(
+                crate::verif::proto::Kind::RetireBlocked,
+                entry.record.sector.load(Ordering::Acquire),
+                1,
+                &entry.record.key,
+                0,
+            );
             retries.push(entry);
             continue;
         }
